@@ -54,7 +54,8 @@ type c04Desc struct {
 	Set     []string `json:"registered"`
 	From    int      `json:"from"` // batch [From, To) of the method-string enumeration
 	To      int      `json:"to"`
-	NonCall bool     `json:"noncall"` // the non-call frame family instead of method strings
+	NonCall bool     `json:"noncall"`       // the non-call frame family instead of method strings
+	Pre     bool     `json:"pre,omitempty"` // with NonCall: every frame behind an earlier call of the same connection
 	Sample  []string `json:"sample"`
 	Params  bool     `json:"params,omitempty"` // the parameter-shape family: representative method strings x every shape of the "parameters" member
 }
@@ -201,42 +202,71 @@ func c04Body(d c04Desc, tier string) func() {
 			}
 		}
 		if d.NonCall {
-			for _, f := range c04NonCalls {
-				c, _ := l.Dial("")
-				p := &rawPeer{c: c}
-				log = log[:0]
-				c.Write([]byte(f + "\x00"))
-				// a follow-up call shows whether the connection is still usable
-				c.Write([]byte(`{"method":"org.varlink.service.GetInfo"}` + "\x00"))
-				if _, isCall := classifyCall(f); isCall {
-					c.CloseWrite()
-				}
-				// after a frame that is not a call the client keeps its side open: the service itself must end
-				// the connection (the read below returns only then)
-				var replies []string
-				for {
-					r, ok := p.readFrame()
-					if !ok {
-						break
+			// every frame as the first one of its connection, and behind an earlier call of the same connection whose
+			// members (method, flags, parameters) must not live on into a frame that leaves them out
+			type pre struct {
+				frame            string
+				replies, entries int
+			}
+			pres := []pre{{"", 0, 0}, {`{"method":"org.varlink.service.GetInfo","parameters":{"x":1}}`, 1, 0}, {`{"method":"zz.q.M","oneway":true,"parameters":{"x":1}}`, 0, 0}}
+			if len(d.Set) > 0 && d.Set[0] != "" && d.Set[0] != "org.varlink.service" {
+				mb, _ := json.Marshal(d.Set[0] + ".M")
+				pres = append(pres, pre{`{"method":` + string(mb) + `,"parameters":{"x":1},"more":false}`, 1, 1}, pre{`{"method":` + string(mb) + `,"oneway":true}`, 0, 1}, pre{`{"method":` + string(mb) + `,"upgrade":true}`, 1, 1})
+			}
+			if d.Pre {
+				pres = pres[1:]
+			} else {
+				pres = pres[:1]
+			}
+			for _, pr := range pres {
+				for _, f := range c04NonCalls {
+					c, _ := l.Dial("")
+					p := &rawPeer{c: c}
+					log = log[:0]
+					if pr.frame != "" {
+						c.Write([]byte(pr.frame + "\x00"))
 					}
-					replies = append(replies, r)
-				}
-				_, isCall := classifyCall(f)
-				st.calls++
-				if !isCall {
-					if len(replies) != 0 || len(log) != 0 {
-						fail("frame %q is not a JSON object with a string method: it must not be answered or dispatched and must end the connection; replies %q dispatch log %v", f, replies, log)
+					c.Write([]byte(f + "\x00"))
+					// a follow-up call shows whether the connection is still usable
+					c.Write([]byte(`{"method":"org.varlink.service.GetInfo"}` + "\x00"))
+					if _, isCall := classifyCall(f); isCall {
+						c.CloseWrite()
 					}
-					continue
+					// after a frame that is not a call the client keeps its side open: the service itself must end
+					// the connection (the read below returns only then)
+					var replies []string
+					for {
+						r, ok := p.readFrame()
+						if !ok {
+							break
+						}
+						replies = append(replies, r)
+					}
+					_, isCall := classifyCall(f)
+					st.calls++
+					if pr.frame != "" {
+						if len(replies) < pr.replies || len(log) < pr.entries {
+							fail("frame %q behind %q: the earlier call got %d replies (%q) and %d dispatches, want %d and %d", f, pr.frame, len(replies), replies, len(log), pr.replies, pr.entries)
+							continue
+						}
+						replies = replies[pr.replies:]
+						log = log[pr.entries:]
+					}
+					if !isCall {
+						if len(replies) != 0 || len(log) != 0 {
+							fail("frame %q is not a JSON object with a string method: it must not be answered or dispatched and must end the connection; replies %q dispatch log %v", f, replies, log)
+						}
+						continue
+					}
+					// a call (possibly with an empty or absent method): exactly one reply, then GetInfo's
+					k, _ := classifyCall(f)
+					kind, arg := refRoute(k.Method, set)
+					if len(replies) != 2 {
+						fail("frame %q (method %q): %d replies %q, want its own reply and the follow-up GetInfo's", f, k.Method, len(replies), replies)
+						continue
+					}
+					checkReply(fail, k.Method, replies[0], kind, arg, log)
 				}
-				// a call (possibly with an empty or absent method): exactly one reply, then GetInfo's
-				k, _ := classifyCall(f)
-				kind, arg := refRoute(k.Method, set)
-				if len(replies) != 2 {
-					fail("frame %q (method %q): %d replies %q, want its own reply and the follow-up GetInfo's", f, k.Method, len(replies), replies)
-					continue
-				}
-				checkReply(fail, k.Method, replies[0], kind, arg, log)
 			}
 			st.done = true
 			return
@@ -420,6 +450,8 @@ func scenariosC04(tier string) []Scen {
 			b = 1
 		}
 		out = append(out, Scen{Desc: d, Bound: b, Body: c04Body(d, tier), Check: c04Check, Obs: c04Obs, Cases: c04Cases})
+		dq := c04Desc{Set: set, NonCall: true, Pre: true}
+		out = append(out, Scen{Desc: dq, Bound: 0, Horizon: 5000000, Body: c04Body(dq, tier), Check: c04Check, Obs: c04Obs, Cases: c04Cases})
 	}
 	return out
 }
